@@ -71,7 +71,8 @@ func statUpdates(stmts []ast.Stmt, where string, guards []string) []string {
 				// local alias
 			case l == gsPrefix+"IsFold" && r == "true" && n.Tok == token.ASSIGN:
 				emit("SSetFold")
-			case l == gsPrefix+"FoldRound" && r == "te.game.GetGameState().Status.Round" && n.Tok == token.ASSIGN:
+			case l == gsPrefix+"FoldRound" && r == "round" && n.Tok == token.ASSIGN:
+				// `round` must be the hand's round read BEFORE the hand call (checked by the caller)
 				emit("SSetFoldRound")
 			case strings.HasPrefix(l, gsPrefix) && r == "true" && n.Tok == token.ASSIGN && flagField[strings.TrimPrefix(l, gsPrefix)] != "":
 				f := flagField[strings.TrimPrefix(l, gsPrefix)]
@@ -143,6 +144,7 @@ func genActions(repo, out string) {
 		var stats []string
 		seenCall := false
 		returnsErr := false
+		roundBefore := false
 		for i, st := range body {
 			s := src(st)
 			if i < 2 && locks {
@@ -155,6 +157,8 @@ func genActions(repo, out string) {
 				case s == "gamePlayerIdx := te.table.FindGamePlayerIdx(playerID)":
 				case s == "playerIdx := te.table.FindPlayerIndexFromGamePlayerIndex(gamePlayerIdx)":
 				case l == "wager" && n.Tok == token.DEFINE:
+				case l == "round" && n.Tok == token.DEFINE && src(n.Rhs[0]) == `""` && !seenCall:
+					roundBefore = true
 				case len(n.Lhs) == 2 && src(n.Lhs[1]) == "err" && strings.HasPrefix(src(n.Rhs[0]), "te.game."):
 					if seenCall {
 						die("%s: %s makes two hand calls", pos(st), name)
@@ -175,6 +179,11 @@ func genActions(repo, out string) {
 					validates = strings.TrimSpace(src(n.Body)) == "{\n\treturn err\n}"
 				case c == "playerIdx == UnsetValue" && !seenCall:
 					finds = true
+				case n.Init != nil && src(n.Init) == "cur := te.game.GetGameState()" && c == "cur != nil" && !seenCall:
+					// reads the round of the hand before the action
+					if squash(src(n.Body)) != squash("{ round = cur.Status.Round }") {
+						guarded = false
+					}
 				case c == "te.table.State.GameState != nil && gamePlayerIdx < len(te.table.State.GameState.Players)" && !seenCall:
 					// computes the local `wager` only
 					for _, x := range n.Body.List {
@@ -218,6 +227,11 @@ func genActions(repo, out string) {
 		}
 		if !returnsErr {
 			die("%s: %s does not end with `return err`", pos(m), name)
+		}
+		for _, u := range stats {
+			if strings.HasSuffix(u, "SSetFoldRound)") && !roundBefore {
+				die("%s: %s: the fold round is not the round read before the hand call", pos(m), name)
+			}
 		}
 		if lastAct == "" {
 			lastAct = actNames[name]
